@@ -177,10 +177,13 @@ def rule_scheduled_order(ctx):
     """Scheduling an event for a model is a way of sending it a message: two events that one origin schedules for the same time and
     model are sent in scheduling order, and causal order requires that they be processed in that order (the C07 mechanism: the key
     carries the origin, same-key actions are chained in pull order in one task, the batch key advances)."""
-    from . import c07
+    from . import c07, c20
     c07.rule_a(ctx)
     c07.rule_b(ctx)
     c07.rule_c(ctx)
+    # pull order among equal (time, origin) keys is insertion order: the queue's epoch tie-break
+    c20.rule_a(ctx)
+    c20.rule_b(ctx)
 
 
-RULES.append(("C02.k", "same-time scheduled events of one origin are sequenced (C07.a/b/c)", rule_scheduled_order))
+RULES.append(("C02.k", "same-time scheduled events of one origin are sequenced (C07.a/b/c) in insertion order (C20.a/b)", rule_scheduled_order))
